@@ -168,7 +168,7 @@ CHECKS["C13"] = dict(
           "through any number of adapters sharing the metric returns for each pair the (sign-adjusted) value of a fresh metric after that "
           "single pair and leaves the metric fresh; the validator probe leaves it fresh; the hypothesis is proved for running-mean metrics. "
           "River's metric classes themselves are outside /repo: the hypothesis and the property are MONITORED on every metric class the "
-          "installed river offers that validate_loss_function accepts (41) and on four user-defined metrics (dict / single-value input x bigger / smaller is better), with interleaved shared histories. Additionally (soft tie) RiverMetricToLossFunction.__call__ is translated statement by statement on every run, once per value of dict_input_metric, and Props/GenRiverLoss.lean proves both specialisations equal to the model's lossCall."),
+          "installed river offers that validate_loss_function accepts (41) and on four user-defined metrics (dict / single-value input x bigger / smaller is better), with interleaved shared histories. Additionally (soft tie) RiverMetricToLossFunction.__call__ is translated statement by statement on every run, once per value of dict_input_metric, and Props/GenRiverLoss.lean proves both specialisations equal to the model's lossCall. Since round 6 dict-metric histories repeat the same probability values under the other labels and key order (the loss is a function of the label-to-probability map)."),
     design_ref="DESIGN.md section 6, C13", note=TRUST_H + " river metrics' update/revert/get behaviour is monitored, not proved.",
     technique="Lean 4 theorems over abstract metric + monitored hypothesis on all accepted river metrics",
 )
@@ -178,7 +178,7 @@ CHECKS["C15"] = dict(
           "logs exactly 1 + d*n model evaluations (none on the first call), exactly one storage update which is the last callback (none "
           "with update_storage=False), returns the importance values, and agrees with the pure layer. The Python-level clauses "
           "(construction from required arguments, positional loss signature, str/int/float/mixed names as keys, non-modification of x, y, "
-          "names) are decided by sweeps on the real classes." + BRIDGE),
+          "names) are decided by sweeps on the real classes. Since round 6 a third of the call-contract configurations start from a storage that already holds observations (the first call still evaluates the model zero times)." + BRIDGE),
     design_ref="DESIGN.md section 6, C15", note=TRUST_H,
     technique="Lean 4 theorems over effectful model + constructor/name-type sweeps + call-log correspondence",
 )
